@@ -329,6 +329,102 @@ func c20PatternSets(maxLen int) [][]string {
 	return out
 }
 
+// c20LargeBodies: request bodies that are larger than the mux's per-message receive limit in
+// total, while every message in them is within it (a stream of many messages), and bodies of
+// several megabytes under the default limit: a mount serves them exactly like the bare mux.
+func c20LargeBodies(c *Ctx) {
+	r := c.Run
+	t, err := newTSchema()
+	if err != nil {
+		panic(err)
+	}
+	type world struct {
+		name  string
+		limit int
+		sizes []int
+	}
+	var many []int
+	for i := 0; i < 40; i++ {
+		many = append(many, 30+i%20) // JSON form included, every message stays under 100 bytes
+	}
+	worlds := []world{
+		{"limit-100", 100, many}, // 40 messages of 30..49 bytes: 1.6 kB in all
+		{"default-limit", 0, []int{1 << 20, 1 << 20, 1 << 20, 1 << 20, 1 << 20, 70000}}, // 5 MiB in all, each message 1 MiB
+	}
+	for _, w := range worlds {
+		var mopts []larking.MuxOption
+		if w.limit > 0 {
+			mopts = append(mopts, larking.MaxReceiveMessageSizeOption(w.limit))
+		}
+		m, impl, err := t.newMux(mopts...)
+		if err != nil {
+			panic(err)
+		}
+		srv, err := larking.NewServer(m, larking.MuxHandleOption("/", "/api/", "/pfx"))
+		if err != nil {
+			panic(err)
+		}
+		var frames, jsons []byte
+		for i, sz := range w.sizes {
+			msg := t.newReq("", c06Payload(i, sz-8), 0)
+			pb, _ := proto.Marshal(msg)
+			js, _ := protojson.Marshal(msg)
+			frames = append(frames, wire.GRPCFrame(0, pb)...)
+			jsons = append(jsons, js...)
+		}
+		for _, pr := range []string{"grpc", "web", "http-json"} {
+			for _, pre := range []string{"", "/api", "/pfx"} {
+				mk := func(path string) *http.Request {
+					hdr := http.Header{}
+					body, major := frames, 1
+					switch pr {
+					case "grpc":
+						hdr.Set("Content-Type", "application/grpc")
+						major = 2
+					case "web":
+						hdr.Set("Content-Type", "application/grpc-web+proto")
+					default:
+						hdr.Set("Content-Type", "application/json")
+						body = jsons
+					}
+					req := &http.Request{Method: "POST", URL: &url.URL{Path: path}, Header: hdr, Proto: "HTTP/1.1", ProtoMajor: major, ProtoMinor: 1, Host: "verif.test",
+						Body: env.NewReader(env.Script{Data: body, MaxRead: 32768}), ContentLength: -1, RemoteAddr: "192.0.2.1:1", RequestURI: path}
+					if major == 2 {
+						req.Proto, req.ProtoMinor = "HTTP/2.0", 0
+					}
+					return req
+				}
+				inner := "/vs.T/CS"
+				if pr == "http-json" {
+					inner = "/t/cs"
+				}
+				hs := hScript{RecvN: -1, Replies: []proto.Message{t.newRsp("done", nil, 0)}}
+				impl.reset(hs)
+				got := serveReq(srv.Handler, mk(pre+inner))
+				gotRecv, gotErr := len(impl.log.Recv), impl.log.RecvErr
+				impl.reset(hs)
+				want := serveReq(m, mk(inner))
+				r.Eval(2)
+				key := fmt.Sprintf("large-body %s proto=%s prefix=%q", w.name, pr, pre)
+				cs := map[string]any{"kind": "large-body", "world": w.name, "proto": pr, "prefix": pre, "messages": len(w.sizes)}
+				switch {
+				case got.Panicked || want.Panicked:
+					r.Violation(report.Violation{Oracle: "panic", Key: key, Case: cs, Note: got.Panic + want.Panic})
+				case len(impl.log.Recv) != len(w.sizes):
+					// the bare mux itself must deliver the whole stream (C06/C08 own that; here it guards the harness)
+					r.Violation(report.Violation{Oracle: "large-body-bare-mux", Key: key, Case: cs, Note: fmt.Sprintf("the bare mux delivered %d of %d messages: %v", len(impl.log.Recv), len(w.sizes), impl.log.RecvErr)})
+				case gotRecv != len(impl.log.Recv) || fmt.Sprint(gotErr) != fmt.Sprint(impl.log.RecvErr) || c20Obs(got) != c20Obs(want):
+					r.Outcome("FAIL:mount-differs")
+					r.Violation(report.Violation{Oracle: "mount-differs", Key: key, Case: cs, Note: fmt.Sprintf("under %q the handler received %d messages (then %v), on the bare mux %d (then %v); via server: %s ; bare: %s", pre, gotRecv, gotErr, len(impl.log.Recv), impl.log.RecvErr, truncS(c20Obs(got), 200), truncS(c20Obs(want), 200))})
+				default:
+					r.Outcome("large-body-same")
+					r.Distinct(key)
+				}
+			}
+		}
+	}
+}
+
 func c20Cases(thorough bool) []c20Case {
 	var out []c20Case
 	inner := []string{"/t/unary", "/t/unary/x", "/vs.T/Unary", "/nope", "/t/unary/", "/t/unary/x/", "/vs.T/Nope", "/"}
@@ -380,7 +476,7 @@ func c20Cases(thorough bool) []c20Case {
 
 func runC20(c *Ctx) {
 	r := c.Run
-	r.Rule("every set of <= 3 (thorough: <= 5) mount patterns from {/, /api, /api/, /pfx/, /twirp, /api/v2, /t, /vs.T/} (plus the default; the last two coincide with the first segment of the mux's own routes) that http.ServeMux accepts × extra handlers {none, /extra, /api/extra/, /extra + /pfx/sub/} × request prefix {none, each mount, /other, /apix, /API} × inner path {rule route, rule route with variable, implicit route, unmatched, trailing slash variants, unknown method, /, and paths in which the prefix text occurs again: prefix+route, route+prefix, prefix inside the route, doubled prefix} × protocol {GET, POST json, Twirp, gRPC, gRPC-web} × handler {ok, NotFound}; the response through NewServer's handler is compared with the bare mux on the stripped path; plus histories in which services are registered (RegisterService, RegisterConn) and a connection is dropped AFTER NewServer, each step compared under every mount; distinct = all case parameters")
+	r.Rule("every set of <= 3 (thorough: <= 5) mount patterns from {/, /api, /api/, /pfx/, /twirp, /api/v2, /t, /vs.T/} (plus the default; the last two coincide with the first segment of the mux's own routes) that http.ServeMux accepts × extra handlers {none, /extra, /api/extra/, /extra + /pfx/sub/} × request prefix {none, each mount, /other, /apix, /API} × inner path {rule route, rule route with variable, implicit route, unmatched, trailing slash variants, unknown method, /, and paths in which the prefix text occurs again: prefix+route, route+prefix, prefix inside the route, doubled prefix} × protocol {GET, POST json, Twirp, gRPC, gRPC-web} × handler {ok, NotFound}; the response through NewServer's handler is compared with the bare mux on the stripped path; plus histories in which services are registered (RegisterService, RegisterConn) and a connection is dropped AFTER NewServer, each step compared under every mount; plus request bodies larger in total than the per-message receive limit (40 messages under a 100-byte limit; 5 × 1 MiB under the default limit) as gRPC / gRPC-web / HTTP JSON client streams under each prefix; distinct = all case parameters")
 	r.Assume("unclean paths ('//', '.', '..') and the bare prefix without a trailing slash are redirected by http.ServeMux and not demanded", "pattern sets that http.ServeMux rejects (both /api and /api/) are skipped")
 	cases := c20Cases(c.Thorough())
 	envs := make([]*c20Env, explore.Workers)
@@ -416,6 +512,7 @@ func runC20(c *Ctx) {
 		}
 	})
 	c20AfterNewServer(c)
+	c20LargeBodies(c)
 }
 
 func contains(ss []string, s string) bool {
